@@ -308,7 +308,14 @@ func TestVerif_C20_ChannelPacing(t *testing.T) {
 	var evals, nontriv, gaps, resets, postok int64
 	maxIdx := 0
 	sampled := 0
-	workers := runtime.GOMAXPROCS(0)
+	// Histories run strictly one after the other in a process (parallelism comes
+	// from worker processes with GOMAXPROCS=1, see leg.json): go1.25.0 allocates
+	// the runtime record that ties a sync.WaitGroup to its bubble without taking
+	// the heap's special lock, so WaitGroups used on several Ms at once (here:
+	// ClientConn.Close in concurrent bubbles) can spuriously die with "WaitGroup.Add
+	// called from multiple synctest bubbles".
+	workers := 1
+	_ = runtime.GOMAXPROCS
 	for w := 0; w < workers; w++ {
 		wg.Add(1)
 		go func() {
